@@ -35,7 +35,13 @@ FORMS = ("indices", "indices", "indices", "blocks", "blocks", "eigvecs", "symmat
 def strategy(tier):
     if tier == "thorough":
         return problems(tier, hermitian=True, max_N=10, max_block_size=4, forms=FORMS)
-    return problems(tier, hermitian=True, forms=FORMS)
+    from hypothesis import strategies as st
+
+    # one case in eight is a small exact (sympy) two-block problem with a fully or selectively diagonalised block -
+    # equal block sizes, zero blocks and symbolic masks meet there far more often than in the general stream
+    small = problems(tier, hermitian=True, min_blocks=2, max_blocks=2, max_N=4, reprs=("sympy",), selections=("full", "mask"), forms=FORMS)
+    general = problems(tier, hermitian=True, forms=FORMS)
+    return st.one_of(*([general] * 7 + [small]))
 
 
 def check_case(case, enforce_all=False):
@@ -43,6 +49,14 @@ def check_case(case, enforce_all=False):
     out.labels = bd_checks.labels_for(case)
     ctx = bd_checks.Ctx(case, out)
     if not ctx.ok:
+        return out
+    # the three series are swept in an order that depends on the case (a pure function of it): what is asked first must
+    # not matter for unitarity
+    first = (sum(case["energy"]) + case["K"] + len(case["assign"])) % 3
+    out.labels.append("swept-first=" + ("U", "H_tilde", "U_inv")[first])
+    if first == 1 and ctx.all_orders("H_tilde") is None:
+        return out
+    if first == 2 and ctx.all_orders("U_inv") is None:
         return out
     U = ctx.all_orders("U")
     Ui = ctx.all_orders("U_inv") if U is not None else None
